@@ -351,6 +351,7 @@ class Engine:
         s.undef_ctr = 0
         s.undef_origin = {}
         s.max_alloc = 1 << 20        # input-controlled allocation bound (C16 resource rule), overridable
+        s.track_undef_branches = False
         s.link()
     # ---------------------------------------------------------------- linking
     def link(s):
@@ -448,6 +449,8 @@ class Engine:
                 elif z3.is_false(v): f = True; mf = st.model; s.sc.cache_hits += 1
             except z3.Z3Exception:
                 pass
+        if s.track_undef_branches and has_undef(cond):
+            st.events.append(('branch-on-undefined', st.where(), str(sorted(v for v in sym_vars(cond) if v.startswith('undef!'))[:2])))
         ncond = z3.Not(cond)
         if t is None:
             mt = s.sc.check(st.pc, cond); t = mt is not None
